@@ -48,6 +48,7 @@ type Frame struct {
 type Cli struct {
 	Idx    int
 	End    *vs.End // client side
+	SrvEnd *vs.End // server side (for segmentation policies and faults)
 	Dotu   bool    // dialect used to decode replies (set after version)
 	Msize  uint32
 	parsed int // bytes of the reply stream already split into frames
@@ -59,7 +60,7 @@ type Cli struct {
 func (h *SrvH) Connect() *Cli {
 	ce, se := vs.Pipe(fmt.Sprintf("cli%d", len(h.Clis)), fmt.Sprintf("srv%d", len(h.Clis)))
 	ce.SinkIncoming()
-	c := &Cli{Idx: len(h.Clis), End: ce}
+	c := &Cli{Idx: len(h.Clis), End: ce, SrvEnd: se}
 	h.Clis = append(h.Clis, c)
 	h.Srv.NewConn(se)
 	return c
